@@ -100,7 +100,8 @@ def run(prop, tier, seed, results, violations, undecided, infra):
         klist += [h for h, i in REG.HARNESSES.items() if h.startswith('shim_') and i.get('kani', True) and h not in klist]
     kres = {}
     if klist and b[0]:
-        info = KN.run_kani(klist, jobs=12, timeout=spec.get('timeout', 1500 if tier == 'quick' else 7200))
+        # CBMC on the CTS / buffered-CFB harnesses needs up to ~14 GB per process: the lists that contain them run with few jobs
+        info = KN.run_kani(klist, jobs=spec.get('jobs', 8), timeout=spec.get('timeout', 1500 if tier == 'quick' else 7200))
         if info.get('build_error'):
             infra.append('kani build failed: ' + info['build_error'][-600:])
         kres = info['results']
